@@ -31,6 +31,15 @@ def _apps(v, acc):
     return acc
 
 
+def _crc_chained(v: Any) -> bool:
+    """crc_hqx called with a non-constant initial value (crc of a prefix continued over a suffix)."""
+    if isinstance(v, tuple):
+        if v[:2] == ("app", "binascii.crc_hqx") and len(v) == 4 and not T.is_c(v[3]):
+            return True
+        return any(_crc_chained(x) for x in v)
+    return False
+
+
 def run(prog: Program, rep: Report, tier: str) -> None:
     rep.rule("R4.1", "normal form of the signer equals p ++ LE16(crc_hqx(p,0x1021)) ++ LE16(crc_hqx(LE16bytes(c1) ++ 0x30*32, 0x1021))", 1)
     rep.rule("R4.2", "the parameter is returned unmodified as prefix; no clock, global, attribute or I/O is read (deterministic)", 2)
@@ -64,6 +73,17 @@ def run(prog: Program, rep: Report, tier: str) -> None:
             rep.undecided("R4.1", f"normal-form path {k}", where, f"analyser met a construct outside its vocabulary: {r}")
             continue
         same = o.value == exp
+        if not same:
+            arith_ops = sorted(a for a in _apps(o.value, set()) if a in ("mod", "floordiv", "and", "or", "xor", "rshift", "lshift", "mul", "add", "sub", "builtins.bytes", "divmod", "pow"))
+            chained = _crc_chained(o.value)
+            if arith_ops or chained:
+                # the signature is re-expressed through integer arithmetic on the CRC values (x % 256, x >> 8, ...) or by
+                # chaining crc_hqx over pieces: deciding that such a form equals LE16(crc) ++ LE16(crc') needs arithmetic
+                # reasoning this analysis does not do - not a violation, not a proof
+                rep.undecided("R4.1", f"normal-form path {k}", where,
+                              f"the signer is expressed through {'arithmetic on the CRC values ' + str(arith_ops) if arith_ops else 'chained crc_hqx calls'}: {T.show(o.value)[:300]}; "
+                              f"its equality with the protocol term {T.show(exp)[:200]} is outside this analysis (normal forms are compared syntactically)")
+                continue
         rep.check_term(same, o.value, "R4.1", f"normal-form path {k}", where,
                   f"signer computes {T.show(o.value)[:700]} but the protocol signature is {T.show(exp)[:500]}",
                   "derived normal form is syntactically identical to the protocol term", derived_text=T.show(o.value)[:900])
@@ -73,7 +93,7 @@ def run(prog: Program, rep: Report, tier: str) -> None:
         prefix_ok = bool(v and v[2] and v[2][0] == ("whole", p))
         rep.check(prefix_ok, "R4.2", f"prefix path {k}", where, "result does not start with the unmodified parameter")
         apps = _apps(o.value, set())
-        impure = sorted(a for a in apps if a not in ("binascii.crc_hqx",))
+        impure = sorted(a for a in apps if a not in ("binascii.crc_hqx", "mod", "floordiv", "and", "or", "xor", "rshift", "lshift", "mul", "add", "sub", "builtins.bytes"))
         ev = [e for e in o.state.events if e.kind in ("call", "store", "global")]
         rep.check(not impure and not ev, "R4.2", f"determinism path {k}", where,
                   f"result depends on {impure or [repr(e) for e in ev]}", "only crc_hqx of the parameter occurs in the result; no events")
